@@ -46,6 +46,11 @@ def gen_set(rnd):
             L.append('ServiceName=' + rnd.choice(['csvc-' + s.replace('@', ''), 'c svc', 'web.service', 'c.container']))
         if rnd.random() < 0.1:
             L.append('Bogus=1')
+        if rnd.random() < 0.15:
+            # a member that fails late in its conversion (after its networks, volumes, … were handled): it is not a member
+            L += rnd.choice([['Volume=missing.volume:/d'], ['Mount=type=volume,source=missing.volume,dst=/m'], ['Group=g'], ['ExposeHostPort=x'],
+                             ['Network=missing.network'], ['Mount=type=bogus,dst=/m'], ['RemapUsers=bad'], ['[Service]', 'Type=bogus'],
+                             ['[Service]', 'KillMode=bogus'], ['PublishPort=1:2:3:4:5'], ['Secret='], ['Pull=bogus']])
         fs[s + '.container'] = '\n'.join(L) + '\n'
     # Pod= naming an EXISTING unit that is not a pod (another container, the container itself, a volume, a network):
     # the name table holds units of every type, so only the suffix test keeps these out
